@@ -50,13 +50,42 @@ Forms == <<"plain", "as", "imp", "unq">>
 \*   impd  require m import [m_get as i_m_get, m_get as j_m_get, m_top]
 \*                                                   - one symbol listed twice
 IForms == Forms \o <<"imp0", "impd">>
-ImpForms == {"imp", "imp0", "impd"}
+ImpForms == {"imp", "imp0", "impd", "impx" (* round 3 (C11) *)}
+
+(* ---- Round 3 (C11) begin: names that collide, names the module does not have --
+   Every generated module of C11 also defines `common` (the same name in every
+   module, another value in each), and two importer forms bind a name that
+   does not depend on the module:
+     asx   require m as shared
+     impx  require m import [common, m_get as shared, length as i_m_len, MAXINT,
+                             secret as i_m_sec, nosuch as i_m_no]
+   so that a require re-binds names that already hold something else (another
+   module's symbol or module object, the importer's own `def common = 0`).
+   The list of impx also names symbols the module does NOT have: two names of
+   the base environment, which is the parent of every module's scope
+   (BaseNames: a native and a constant), the importer's own variable `secret`
+   and a name nobody has.  An import list is resolved in the module's OWN
+   top-level scope (ImportScope; the deviation ImportScopeChain resolves it the
+   way a variable is looked up, through the chain of environments), so these
+   four bind nothing.                                                        *)
+NCommon  == "common"
+NShared  == "shared"
+BaseNames == {"length", "MAXINT"}
+ILen(m)  == "i_" \o m \o "_len"
+ISec(m)  == "i_" \o m \o "_sec"
+INo(m)   == "i_" \o m \o "_no"
+ImpListX(m) == {<<NCommon, NCommon>>, <<NGet(m), NShared>>, <<"length", ILen(m)>>, <<"MAXINT", "MAXINT">>,
+                <<"secret", ISec(m)>>, <<"nosuch", INo(m)>>}
+IForms3 == IForms \o <<"impx", "asx">>
+AsForms == {"as", "asx"}              \* forms that bind the module object under another name
+(* ---- Round 3 (C11) end ---------------------------------------------------- *)
 
 \* the import list of the "imp" form for module m: pairs <<symbol, alias>>
 ImpList(m) == {<<NGet(m), IGet(m)>>, <<NSt(m), ISt(m)>>, <<NTop(m), NTop(m)>>}
 ImpListOf(form, m) ==
   CASE form = "imp0" -> {}
     [] form = "impd" -> {<<NGet(m), IGet(m)>>, <<NGet(m), JGet(m)>>, <<NTop(m), NTop(m)>>}
+    [] form = "impx" -> ImpListX(m)         \* round 3 (C11)
     [] OTHER         -> ImpList(m)
 
 \* the name through which code that required d with `form` reaches d
@@ -139,6 +168,72 @@ FS10B ==
   ("solo"   :> File(<<SDef("solo_a")>>, {NSt("solo")}))
 (* ---- Round 3 (C10) end --------------------------------------------------- *)
 
+(* ---- Round 3 (C11) begin: public definitions of every kind of value ---------
+   The statement `vals` (first statement of every generated C11 module) stands
+   for one definition per kind of value a module can export, next to the ints
+   and functions of the prelude:
+     def common = <pos>            (NCommon: the same name in every module)
+     def m_objv = <* w = 3 *>      a plain object (not a module object)
+     def m_lstv = [4]              def m_mapv = <<< 'w' => 5 >>>
+     def m_strv = 'ssssss'         def m_null = NULL
+     def m_bool = TRUE             def m_zero = 0
+   All are public top-level definitions: the module object exposes them, and
+   `unqualified` / an import list bind them, like any other.  A module of the
+   second directory (variant "alt", FSOfAlt) has the same names with other
+   contents (ValR).  n = the position of the module among AllMods (as text; it
+   is the value of `common`), id = the variant.                               *)
+AllMods   == <<"ma", "mb", "mc", "md", "me">>
+ModPos(m) == CHOOSE k \in DOMAIN AllMods : AllMods[k] = m
+ValKinds  == {"objv", "lstv", "mapv", "strv", "null", "bool", "zero"}
+NVal(m, kd) == m \o "_" \o kd
+SVals(m, variant) == [op |-> "vals", n |-> ToString(ModPos(m)), id |-> variant, form |-> ""]
+ValNames(m) == {NCommon} \cup {NVal(m, kd) : kd \in ValKinds}
+ValsEnv(m)  == [n \in ValNames(m) |-> SymV(m, n)]
+\* what the observer finds in such a definition: the int w / the element / the
+\* value under 'w' / the length of the text / 0 / 1 for TRUE / the int itself
+ValR(kd, m, variant) ==
+  LET a == IF variant = "alt" THEN 10 ELSE 0 IN
+  CASE kd = "common" -> ModPos(m) + a
+    [] kd = "objv"   -> 3 + a
+    [] kd = "lstv"   -> 4 + a
+    [] kd = "mapv"   -> 5 + a
+    [] kd = "strv"   -> 6 + a
+    [] kd = "bool"   -> IF variant = "alt" THEN 0 ELSE 1
+    [] OTHER (* null, zero *) -> 0
+ValKindOf(m, n) == IF n = NCommon THEN "common" ELSE CHOOSE kd \in ValKinds : NVal(m, kd) = n
+
+\* The second module directory of C11 (the interpreters named by AltFS11 in
+\* Session.tla read it): the same module names as the generated graph, other
+\* contents - variant "alt" of the values, m_x = 8, a public m_w instead of
+\* m_z and the private _m_y - and a fixed shape: every module requires the
+\* next one of seq (plain), the last one requires nothing.
+RECURSIVE AltChain(_, _)
+AltChain(seq, k) ==
+  IF k > Len(seq) THEN [x \in {} |-> 0]
+  ELSE (seq[k] :> [syn |-> FALSE, priv |-> {NSt(seq[k])},
+                   body |-> <<SVals(seq[k], "alt"), SDef8(seq[k] \o "_x")>>
+                            \o (IF k < Len(seq)
+                                THEN <<[op |-> "req", n |-> "", id |-> seq[k + 1], form |-> "plain"],
+                                       [op |-> "rdr", n |-> seq[k] \o "_r1", id |-> seq[k + 1], form |-> "plain"]>>
+                                ELSE << >>)
+                            \o <<[op |-> "def", n |-> seq[k] \o "_w", id |-> "", form |-> ""]>>])
+       @@ AltChain(seq, k + 1)
+FSOfAlt(seq) == AltChain(seq, 1)
+
+\* String spellings of a user module.  `require <expression>` takes the name
+\* of the module from a string as well: the file is the last path component
+\* (a directory part is ignored, `.ckl` may be written out), the module - what
+\* is cached, loaded once, bound - is that file:  'ma'  'ma.ckl'  'lib/ma'
+\* './ma.ckl'  all denote the module ma and bind the name ma (or the `as` name).
+SpellKinds == {"str", "ext", "dir", "dot"}
+SpellOf(kd, m) == CASE kd = "str" -> "'" \o m \o "'"
+                    [] kd = "ext" -> "'" \o m \o ".ckl'"
+                    [] kd = "dir" -> "'lib/" \o m \o "'"
+                    [] OTHER      -> "'./" \o m \o ".ckl'"
+UserSpell == [sp \in {SpellOf(kd, m) : kd \in SpellKinds, m \in Range(AllMods)} |->
+                CHOOSE m \in Range(AllMods) : \E kd \in SpellKinds : SpellOf(kd, m) = sp]
+(* ---- Round 3 (C11) end ---------------------------------------------------- *)
+
 \* Bundled modules (src/ckl/modules/*.ckl) are found whatever the case of the
 \* name used (nodes.py: "modules/" + basename.lower()); the start-up code
 \* requires Sys (modules/base.ckl), so `sys` is loaded in every interpreter
@@ -146,7 +241,12 @@ FS10B ==
 \* object of a bundled module is observed for what it is and for which
 \* instance it shows, not for its members).
 Spell == ("Sys" :> "sys") @@ ("Stat" :> "stat") @@ ("STAT" :> "stat")
-Canon(sp) == IF sp \in DOMAIN Spell THEN Spell[sp] ELSE sp     \* spelling -> file
+Canon(sp) == IF sp \in DOMAIN Spell THEN Spell[sp]              \* spelling -> file
+             ELSE IF sp \in DOMAIN UserSpell THEN UserSpell[sp]   \* round 3 (C11): a string
+             ELSE sp
+\* round 3 (C11): the name a plain require binds = the module name as spelled;
+\* for a string that is the file's name without directory and extension
+BindNm(sp) == IF sp \in DOMAIN UserSpell THEN UserSpell[sp] ELSE sp
 BundledFS == ("sys" :> File(<< >>, {})) @@ ("stat" :> File(<< >>, {}))
 Bundled == DOMAIN BundledFS
 Preloaded == {"sys"}
@@ -165,7 +265,7 @@ EdgeStmts(gen, m, k) ==
        \o EdgeStmts(gen, m, k + 1)
 
 FSOf(gen, Ids) ==
-  [m \in Ids |-> File(<<SDef(m \o "_x"), SDef("_" \o m \o "_y")>>
+  [m \in Ids |-> File(<<SVals(m, "") (* round 3 (C11) *), SDef(m \o "_x"), SDef("_" \o m \o "_y")>>
                         \o EdgeStmts(gen, m, 1) \o <<SDef(m \o "_z")>>,
                       {NSt(m), "_" \o m \o "_y"})]
 
@@ -178,6 +278,7 @@ SymKind(fs, m, n) ==
     [] n = NBump(m) -> "bump"
     [] n = NGet(m)  -> "get"
     [] n = NSees(m) -> "sees"
+    [] n \in ValNames(m) -> "vals"          \* round 3 (C11): defined by the statement `vals`
     [] OTHER        -> fs[m].body[SymStmt(fs, m, n)].op
 
 -----------------------------------------------------------------------------
@@ -194,14 +295,30 @@ Exposed(fs, vars) == {n \in PubSyms(fs, vars) : vars[n].k # "mod"}
 Denotes(fs, form, nm, vars) ==
   CASE form = "plain"    -> {nm}
     [] form = "as"       -> {Alias(nm)}
+    [] form = "asx"      -> {NShared}                                   \* round 3 (C11)
     [] form \in ImpForms -> {p[2] : p \in {q \in ImpListOf(form, nm) : q[1] \in PubSyms(fs, vars)}}
     [] OTHER             -> PubSyms(fs, vars)
 
 \* and the value each of them gets: every listed alias of a symbol gets that
 \* symbol, the module object is the one instance of d
 BoundValue(fs, form, d, vars, name) ==
-  CASE form \in {"plain", "as"} -> ModV(d)
+  CASE form \in {"plain", "as", "asx" (* round 3 (C11) *)} -> ModV(d)
     [] form \in ImpForms -> vars[(CHOOSE p \in ImpListOf(form, d) : p[2] = name /\ p[1] \in DOMAIN vars)[1]]
     [] OTHER        -> vars[name]
+
+(* ---- Round 3 (C11) begin: where the symbols of an import list are looked up --
+   In the module's own top-level scope (`vars`), never further up: the base
+   environment behind it (the parent of every module scope) holds the natives
+   and everything the start-up code defined, none of which the module exports.
+   ImportScopeChain is the deviation "resolved like a variable": a
+   configuration that substitutes it for ImportScope must violate BindsExactly. *)
+BaseScope == [n \in BaseNames |-> FnV(n)]
+ImportScope(vars)      == vars
+ImportScopeChain(vars) == vars @@ BaseScope
+\* A require re-binds a name that is already bound (Rebind: the new bindings
+\* win); the deviation RebindKeep keeps what the importer already had.
+Rebind(new, old)     == new @@ old
+RebindKeep(new, old) == old @@ new
+(* ---- Round 3 (C11) end ---------------------------------------------------- *)
 
 =============================================================================
